@@ -336,6 +336,11 @@ def _check_typevar_pairing(run: Run, m) -> None:
                     if z[0] == "app" and z[1] == ("global", "builtins.zip") and len(z[2]) == 2 and mentions(z[2][0], "__parameters__") and is_args(z[2][1]):
                         ok = key == ("attr", ("index", ("elem", z), 0), "__name__") and val == ("index", ("elem", z), 1)
                         why = f"key {show(key)[:60]} / value {show(val)[:60]} are not the two components of one zip element"
+                        # the arguments of t stand for the type variables of t's *own* class (get_origin(t).__parameters__);
+                        # the first base may use only some of them, or in another order: class Assoc(Iterable[V], Generic[K, V])
+                        if ok and mentions(z[2][0], "__orig_bases__"):
+                            ok = False
+                            why = "the arguments of the type are paired with the type variables of its first *base*, not with its own: Assoc[str, float] for class Assoc(Iterable[V], Generic[K, V]) unwraps to str"
                     else:
                         why = f"the loop runs over {show(z)[:100]}, not zip(<base>.__parameters__, get_args(t))"
             elif t[0] == "app" and t[1] == ("global", "builtins.dict") and len(t[2]) == 1:
@@ -346,6 +351,55 @@ def _check_typevar_pairing(run: Run, m) -> None:
                     why = "names are not [p.__name__ for p in <base>.__parameters__]"
             run.check(ok, "C08.R6", f_, stmt_of(n), "type variables and type arguments are paired by position", f"the substitution map for the generic base is {show(t)[:160]}: {why}", "{p.__name__: a for p, a in zip(base.__parameters__, get_args(t))}", show(t)[:300], key="type-variable map is not zip(parameters, arguments)")
     run.floor("C08.R6", n_maps, 1, "type-variable substitution maps in get_inherited")
+    _check_base_choice(run, m, ctx, gi)
+    _check_non_generic_subclass(run, m)
+
+
+def _check_base_choice(run: Run, m, ctx, gi) -> None:
+    """R9. `class Coll(Generic[T])`, `class Sub(Named, Base[T])`: the type a class inherits from is its first
+    parameterised base that is a real class. Taking __orig_bases__[0] whatever it is re-parameterises typing.Generic
+    (TypeError) or reads __parameters__ of a plain class (AttributeError) - for the most ordinary generic class."""
+    from ..terms import subterms
+
+    run.rule("C08.R9", "get_inherited skips Generic[..] and unparameterised bases when it picks the base a class inherits its parameters from")
+    fa = ctx.analysis(gi)
+    n_pick = 0
+    for n in own_nodes(gi):
+        if not (isinstance(n, ast.Subscript) and isinstance(n.ctx, ast.Load) and isinstance(n.slice, ast.Constant) and n.slice.value == 0 and fa.cfg.has_node(n)):
+            continue
+        src = strip_sites(fa.term_of(n.value))
+        if not contains(src, lambda q: q[0] == "attr" and q[2] == "__orig_bases__"):
+            continue
+        n_pick += 1
+        filtered = any(c[0] == "comp" and any(contains(cond, lambda q: q == ("global", "typing.Generic")) for _it, conds in c[3] for cond in conds) for c in subterms(src) if isinstance(c, tuple) and c and c[0] == "comp")
+        run.check(filtered, "C08.R9", gi, stmt_of(n), "the base is picked among the parameterised bases other than Generic[..]", f"get_inherited takes the first entry of __orig_bases__ ({show(src)[:80]}) whatever it is: for class Coll(Generic[T]) that is Generic[T] - re-parameterising it raises TypeError, so every method call on a Coll[Jet] fails - and for class Sub(Named, Base[T]) it is a plain class without __parameters__", "[b for b in bases if get_origin(b) is not None and get_origin(b) is not typing.Generic][0]", show(src)[:200], key="first base taken whatever it is")
+    run.floor("C08.R9", n_pick, 1, "picks of a base in get_inherited")
+
+
+def _check_non_generic_subclass(run: Run, m) -> None:
+    """R10. class JetList(Coll[Jet]) has no parameters of its own but fixes Coll's: looking for the parameters of
+    `at_class` in a type that is not parameterised must go on through what the type inherits from before it gives up."""
+    run.rule("C08.R10", "build_type_dict_from_type follows get_inherited for an unparameterised type before it refuses")
+    bt = m.find_func("build_type_dict_from_type", in_module="func_adl.util_types")
+    ctx = TermCtx(m, max_depth=1)
+    fa = ctx.analysis(bt)
+    tp = ("param", bt.pos_params[0])
+    n_r = 0
+    for r in [n for n in own_nodes(bt) if isinstance(n, ast.Raise)]:
+        fx = Facts(fa, r)
+        # the refusal made when get_origin(t) is None
+        origin_none = False
+        for a, pol in fx.atoms:
+            if isinstance(a, ast.Compare) and len(a.ops) == 1 and isinstance(a.ops[0], (ast.Is, ast.IsNot)) and isinstance(a.comparators[0], ast.Constant) and a.comparators[0].value is None and (isinstance(a.ops[0], ast.Is) == pol):
+                lt = strip_sites(fa.term_of(a.left))
+                if lt[0] == "app" and lt[1][0] == "global" and lt[1][1].endswith("get_origin") and lt[2] == (tp,):
+                    origin_none = True
+        if not origin_none or isinstance(getattr(r, "cause", None), ast.AST) and False:
+            continue
+        n_r += 1
+        tried = any(isinstance(c.func, ast.Name) and c.func.id == "get_inherited" and c.args and strip_sites(fa.term_of(c.args[0])) == tp and fa.cfg.has_node(c) and fa.cfg.dominates(fa.cfg.node_of(c), fa.cfg.node_of(r)) for c in calls_in(bt))
+        run.check(tried, "C08.R10", bt, r, "an unparameterised type is refused only after its inherited type was tried", "build_type_dict_from_type gives up on a type that has no parameters of its own without looking at what it inherits from: for class JetList(Coll[Jet]) the variables of Coll stay unresolved and a method declared `-> T` on Coll is typed Any", "inherited = get_inherited(t); if inherited is not Any: return build_type_dict_from_type(inherited, at_class)", key="unparameterised type refused without following its bases")
+    run.floor("C08.R10", n_r, 1, "refusals for an unparameterised type")
 
 
 def strip_visits_attr(t):
